@@ -116,7 +116,7 @@ SPEC = [
     ("interface_abstract", "abstract interface\n  function {n1}({n2}) result({n3})\n    real :: {n2}, {n3}\n  end function {n1}\nend interface", "x"),
     ("interface_assign", "interface assignment (=)\n  module procedure {n1}, {n2}\nend interface assignment (=)", "x"),
     ("interface_dtio", "interface write(formatted)\n  module procedure {n1}\nend interface", "x"),
-    ("interface_opsym", "interface operator (+)\n  procedure {n1}\nend interface operator (+)", "x"),
+    ("interface_opsym", "interface operator (+)\n  module procedure {n1}\nend interface operator (+)", "x"),
     ("format_many", "{L1} format (i{d1}, 2x, f{d2}.3, /, 3(a, 1x), e12.4e2, tr{d1}, sp, 'x')", "fix x"),
     ("format_ctrl", "{L1} format (a, :, /, t{d1}, tl2, 1p, bn, ss, es{d2}.3, g10.3, l1, //)", "fix x"),
     ("format_nested", "{L1} format ({d1}(i2, 2(f4.1, '{s1}')), a{d2})", "fix x"),
